@@ -273,7 +273,7 @@ type c09State struct {
 	probes  map[string]int
 	created map[uint32]bool
 	removed map[uint32]bool
-	taint string
+	taint   string
 	// concurrentReads are reads issued by tasks (not judged; see c09Exec)
 	concurrentReads []porcupine.Operation
 }
